@@ -53,16 +53,18 @@ def make_zmulti_item(rng, i):
     return {'kind': 'zmulti', 'version': version, 'fields': fields, 'ref': 'zmulti', 'edits': [f[0] for f in fields] + [version]}
 
 
-def make_item(rng, i):
+def make_item(rng, i, force=None):
     r = rng.random()
-    if r < 0.15:
+    if r < 0.12 and force is None:
         return make_zmulti_item(rng, i)
-    if r < 0.4:
+    if r < 0.35 and force is None:
         return make_zfield_item(rng, i)
     lines = (RSP_K21 % ('c%d' % i)).rstrip('\r').split('\r')
     edits = []
-    for _ in range(rng.choice([0, 0, 1, 1, 2])):
+    for k_ in range(rng.choice([0, 0, 1, 1, 2]) if force is None else rng.choice([1, 2])):
         e = rng.choice(['drop', 'dsc', 'dup', 'extra_field', 'sft', 'err', 'drop_field', 'zseg'])
+        if force is not None and k_ == 0:
+            e = force
         edits.append(e)
         if e == 'drop' and len(lines) > 2:
             del lines[rng.randrange(1, len(lines))]
